@@ -9,7 +9,8 @@ MLS = ("routing",)
 HARNESSES = ()
 THEOREMS = ["C05_exactly_once", "C05_copies_only_to_eavesdroppers", "C05_copies_once", "C05_no_third_party_intact", "C05_only_sends_forward", "C05_delivered", "C05_fifo",
             "C05_undeliverable_no_owner", "C05_refused_opens_nothing", "C05_undeliverable",
-            "C05_close_keeps_earlier_steps", "C05_close_cleans_up"]
+            "C05_close_keeps_earlier_steps", "C05_close_cleans_up",
+            "C05_fifo_held", "C05_fifo_held_inv", "C05_held_only_while_unowned"]
 
 NONTRIVIAL = {"call-delivered", "call-delivered-noreply", "signal-delivered", "reply-delivered", "other-delivered",
               "no-owner-ServiceUnknown", "no-owner-NameHasNoOwner", "limit-refused", "duplicate-serial-refused", "fd-refused"}
@@ -69,6 +70,53 @@ def close_cases(rnd, n):
     return cases
 
 
+def activation_cases(rnd, n):
+    """auto-start messages to the activatable names t.N8 / t.N9 while nobody owns them: one or several senders pipeline 2-6
+    messages each (calls with and without NO_REPLY_EXPECTED, signals, a few with NO_AUTO_START which bounce at once), then a
+    test connection plays the service (RequestName), more messages follow, the service releases the name or leaves and the
+    cycle may repeat; senders sometimes leave while their messages are held."""
+    cases = []
+    for i in range(n):
+        ev = ["C0", "C0", "C0", "C0"]
+        live = [0, 1, 2, 3]
+        tok, ser = 0, 100
+        if rnd.random() < 0.3:
+            ev.append("M.3.20.1.%s.x.x" % rnd.choice("xcs"))
+        owner = {8: None, 9: None}
+        for rounds in range(rnd.randint(1, 3)):
+            n8 = rnd.choice((8, 8, 9))
+            senders = rnd.sample(live, min(len(live), rnd.choice((1, 1, 2, 3))))
+            for c in senders:
+                for k in range(rnd.randint(2, 6)):
+                    tok += 1; ser += 1
+                    ty = rnd.choice("cccs")
+                    nr = 1 if ty == "s" or rnd.random() < 0.6 else 0
+                    na = 1 if rnd.random() < 0.12 else 0
+                    dst = "n%d" % (n8 if rnd.random() < 0.85 else rnd.choice((8, 9, 0)))
+                    ev.append("S.%d.%s.%d.%d.%d.0.%s.0.%d" % (c, ty, nr, na, ser, dst, tok))
+                if rnd.random() < 0.15 and len(live) > 2:
+                    ev.append("D.%d" % c)
+                    live.remove(c)
+            if not live:
+                break
+            svc = rnd.choice(live)
+            ser += 1
+            ev.append("R.%d.%d.%d.%d" % (svc, ser, n8, rnd.choice((0, 0, 4, 1))))
+            for k in range(rnd.randint(0, 3)):
+                tok += 1; ser += 1
+                c = rnd.choice(live)
+                ev.append("S.%d.%s.1.0.%d.0.n%d.0.%d" % (c, rnd.choice("cs"), ser, n8, tok))
+            r = rnd.random()
+            ser += 1
+            if r < 0.5:
+                ev.append("L.%d.%d.%d" % (svc, ser, n8))
+            elif r < 0.7 and len(live) > 2:
+                ev.append("D.%d" % svc)
+                live.remove(svc)
+        cases.append((("pipe-act%d" if i % 2 else "act%d") % i, (0, 50, -1), ev))
+    return cases
+
+
 def gen_cases(tier, rnd):
     cases = [c for c in rg.scenarios() if c[1][0] == 0]
     cases += rc.load_corpus("C05")
@@ -81,6 +129,7 @@ def gen_cases(tier, rnd):
         cases.append(("timed%d" % i, cfg, rg.gen_history(rnd, cfg, "c05", rnd.randint(5, 10))))
     cases += burst_cases(rnd, n_burst)
     cases += close_cases(rnd, 12 if tier == "quick" else 300)
+    cases += activation_cases(rnd, 60 if tier == "quick" else 3000)
     return cases
 
 
@@ -117,6 +166,7 @@ def run(ctx):
         "model coq/Routing/Routing.v is hand-written; tied to the code by the correspondence run only",
         "who owns a name is computed by the model's copy of the RequestName/ReleaseName queue rules (property C04 specifies them); the oracle takes the owner from there",
         "every event is fully processed before the next one is written (round-trip barriers): concurrent senders, slow readers and the libdbus outgoing queue are not explored here",
-        "match rules: only the keys eavesdrop, type, sender, destination on unicast messages (full match-rule semantics and broadcasts: C07; monitors: C18); service activation is not configured (C19): an unowned name is an error",
+        "match rules: only the keys eavesdrop, type, sender, destination on unicast messages (full match-rule semantics and broadcasts: C07; monitors: C18)",
+        "activation: names t.N8 / t.N9 have service files whose Exec never claims the name; service-file parsing, the launch helper, start timeouts and failing children are C19's",
         "out-of-memory paths are outside the model (C14)",
     ]
